@@ -7,8 +7,9 @@
                                              timeout is short (the upstream never answers it in time); probe = warm-up
                                              request after an upstream close (may fail while the pool reconnects)
      urecv{tok,uid,htok}                     the upstream read a request under upstream id uid: token in its body (tok) and in its header (htok)
-     usend{tok,uid,kind}                     the upstream is about to write a reply echoing tok in header and body under id uid
-                                             (kind ans | dup | ghost)
+     usend{tok,uid,kind,for}                 the upstream is about to write a reply echoing tok in header and body under id uid
+                                             (kind ans | dup | ghost: success status; kind err: error status, tok is the error
+                                             answer's own token, for = token of the request it answers)
      uclose{}                                the upstream is about to close the connection(s) of the proxy
      crecv{conn,id,ok,status,htok,btok}      a client read a response frame: id, success?, token in header / in body
      cclose{conn}                            the client is about to close this connection: its outstanding requests are abandoned
@@ -26,7 +27,8 @@ tv == <<open, done, produced, unstable, closes>>
 tvars == <<tv, l>>
 
 Kinds == {"second-reply-for-request", "reply-for-unknown-id", "foreign-response-header", "foreign-response-body",
-          "response-never-produced-upstream", "error-reply-for-healthy-request"}
+          "response-never-produced-upstream", "error-reply-for-healthy-request",
+          "error-reply-header-and-body-from-different-exchanges", "foreign-error-response"}
 
 Empty == [x \in {} |-> 0]
 TraceInit == l = 1 /\ open = Empty /\ done = {} /\ produced = {} /\ unstable = FALSE /\ closes = 0
@@ -35,7 +37,8 @@ TRun == IsEvent("run") /\ open' = Empty /\ done' = {} /\ produced' = {} /\ unsta
 
 TCsend == /\ IsEvent("csend")
           /\ LET k == <<Ev.conn, Ev.dsid>>
-                 q == [tok |-> Ev.tok, short |-> Ev.short, unstable |-> unstable \/ Ev.probe, closedSince |-> FALSE, cc |-> closes, gone |-> FALSE]
+                 q == [tok |-> Ev.tok, short |-> Ev.short, unstable |-> unstable \/ Ev.probe, closedSince |-> FALSE, cc |-> closes, gone |-> FALSE,
+                       nil |-> "", errs |-> {}]
              IN /\ k \notin DOMAIN open      \* the harness never reuses an id that is still outstanding on the connection
                 /\ open' = [x \in DOMAIN open \cup {k} |-> IF x = k THEN q ELSE open[x]]
                 /\ done' = done \ {k}
@@ -44,7 +47,13 @@ TCsend == /\ IsEvent("csend")
 TUrecv == /\ IsEvent("urecv")
           /\ Expect(~Has(Ev, "htok") \/ Ev.htok = Ev.tok, "request-header-and-body-from-different-exchanges")
           /\ UNCHANGED tv
-TUsend == IsEvent("usend") /\ produced' = produced \cup {Ev.tok} /\ UNCHANGED <<open, done, unstable, closes>>
+(* kind err: an error answer (error status, Ev.tok in header and body) for the request whose token is Ev.for *)
+TUsend == /\ IsEvent("usend")
+          /\ IF Ev.kind = "err"
+             THEN /\ open' = [x \in DOMAIN open |-> IF open[x].tok = Ev.for THEN [open[x] EXCEPT !.errs = @ \cup {Ev.tok}] ELSE open[x]]
+                  /\ UNCHANGED produced
+             ELSE produced' = produced \cup {Ev.tok} /\ UNCHANGED open
+          /\ UNCHANGED <<done, unstable, closes>>
 TUclose == /\ IsEvent("uclose")
            /\ open' = [x \in DOMAIN open |-> [open[x] EXCEPT !.closedSince = TRUE]]
            /\ unstable' = TRUE /\ closes' = closes + 1
@@ -53,7 +62,8 @@ TUclose == /\ IsEvent("uclose")
 TCrecv == /\ IsEvent("crecv")
           /\ LET k == <<Ev.conn, Ev.id>>
                  has == k \in DOMAIN open
-                 q == IF has THEN open[k] ELSE [tok |-> "", short |-> FALSE, unstable |-> FALSE, closedSince |-> FALSE, cc |-> 0, gone |-> FALSE]
+                 q == IF has THEN open[k] ELSE [tok |-> "", short |-> FALSE, unstable |-> FALSE, closedSince |-> FALSE, cc |-> 0, gone |-> FALSE,
+                                                 nil |-> "", errs |-> {}]
                  v == Verdict(has, k \in done, q, Ev.ok, Ev.htok, Ev.btok, Ev.htok \in produced)
              IN /\ \A kind \in Kinds : Expect(kind \notin v, kind)
                 /\ open' = IF has THEN [x \in DOMAIN open \ {k} |-> open[x]] ELSE open
